@@ -240,9 +240,10 @@ func Cmp(ei, ej Object) int {
 	case STRING:
 		return cmp.Compare(ei.(String).Value, ej.(String).Value)
 
-	// RETURN, QUOTE, MACRO, ANY aren't expected to be compared.
+	// RETURN, QUOTE, MACRO, ANY aren't expected to be compared, yet a program can hold and compare
+	// quotes and macros (quote(1)==quote(2), [quote(1)] as map key...): order them by their printed form.
 	case RETURN, QUOTE, MACRO, UNKNOWN, ANY:
-		panic(fmt.Sprintf("Unexpected type in Cmp: %s", ti))
+		return cmp.Compare(ei.Inspect(), ej.Inspect())
 	}
 	return 1
 }
